@@ -388,11 +388,20 @@ fn gen_boundary(g: &mut Rng) -> String {
 }
 
 /// a correctly signed, policy-compliant form
+/// a valid form signed by the given access key
+pub fn gen_form_for_key(g: &mut Rng, secrets: &HashMap<String, String>, ak: &str) -> (Form, &'static str, Value) {
+    gen_form_with(g, secrets, Some(ak))
+}
+
 pub fn gen_form_pub(g: &mut Rng, secrets: &HashMap<String, String>) -> (Form, &'static str, Value) {
     gen_form(g, secrets)
 }
 
 fn gen_form(g: &mut Rng, secrets: &HashMap<String, String>) -> (Form, &'static str, Value) {
+    gen_form_with(g, secrets, None)
+}
+
+fn gen_form_with(g: &mut Rng, secrets: &HashMap<String, String>, forced_ak: Option<&str>) -> (Form, &'static str, Value) {
     let boundary = gen_boundary(g);
     let (file, cclass) = gen_file(g, &boundary);
     // the content must not contain the delimiter itself
@@ -400,7 +409,10 @@ fn gen_form(g: &mut Rng, secrets: &HashMap<String, String>) -> (Form, &'static s
     let file = if file.windows(delim.len()).any(|w| w == delim.as_bytes()) { b"fallback".to_vec() } else { file };
     let bucket = format!("b{}", g.lower_alnum(6));
     let key = format!("user/{}/{}", g.alnum(4), *g.pick(&["a b.txt", "é.png", "x+y", "plain", "q?x=1", "50%", "dir//f"]));
-    let ak = if g.chance(3, 4) { AK } else { AK2 };
+    let ak = match forced_ak {
+        Some(a) => a,
+        None => if g.chance(3, 4) { AK } else { AK2 },
+    };
     let amz_date = unix_to_amz_date(now_unix() - g.range(0, 3600));
     let p = V4Params { access_key: ak.into(), secret: secrets[ak].clone(), amz_date: amz_date.clone(), region: "us-east-1".into(), service: "s3".into() };
     let cred = format!("{ak}/{}", p.scope());
